@@ -114,7 +114,7 @@ DEC_ASSUME = ['decoder window hooked to small BUFFER_SIZE values (CDNS_VERIF_DEC
               'message formatting (std::to_string, operator+) has empty bodies']
 
 PROPS['C05'] = {
-    'obligations': dec_obls(('prim', 'string', 'skip')),
+    'obligations': [o for o in dec_obls(('prim', 'string', 'skip')) if not any(k in o.name for k in ('skip_array', 'skip_map', 'skip_indef', 'skip_tag'))],
     'explanation': 'End-of-input detection is decided on the decoder primitives: from every state of I_dec whose abstract remaining input is shorter than the '
                    'operation needs (empty input, exhausted-but-no-eofbit stream, unreadable stream, every window offset) the primitive must throw CdnsDecoderEnd; '
                    'stale window bytes are unconstrained so any dependence on them is a counterexample. CdnsReader::read_block only composes these primitives '
@@ -146,4 +146,45 @@ PROPS['C17'] = {
                    'The term encoding is validated on every run against a native build of the same functions on the repo\'s test values and seeded random vectors. '
                    'T4 (earliest-time bookkeeping in CdnsBlock) is a CBMC obligation (block harness).',
     'assumptions': ['QF_NIA solvers z3/cvc5 (agreement of at least two required)', 'IR produced with clang -O1 -disable-llvm-passes + mem2reg/sroa/simplifycfg/inline only (no UB-exploiting passes), so nsw flags are those of the source'],
+}
+
+
+# ------------------------------------------------------------------------------------------ U9 tables / hash
+TBL_FUNCS = ['CDNS::hash_value(T const*, size_t, seed)', 'hash_value(QueryResponseSignature/RR/MalformedMessageData/StringItem/IndexListItem/AddressEventCount)',
+             'CDNS::hash<T>', 'KeyRef<T>::operator==', 'hash_value(KeyRef<T>)', 'operator== of the 8 key types', 'BlockTable::find/add/add_value/clear/operator[]/record_last_key',
+             'CdnsBlock::add_ip_address/add_classtype/add_question_list/get_*/clear', 'BlockTable copy ctor/assignment', 'CdnsBlock copy/move ctor/assignment']
+TBL_US = {r'4findERK|ixERK|find_h': 5, r'hash_value': 4, r'__v_mem': 8}
+TBL_ASSUME = ['std::unordered_map model: slots with the hash code cached at insertion (as libstdc++ does); find = cached hash equal && KeyEqual',
+              'std::deque model: fixed storage, stable element addresses (capacity 4)',
+              'SSE4.2 crc32 intrinsics: deterministic mixing function injective in the data operand (quick); exact CRC-32C with -DVERIF_EXACT_CRC (thorough)',
+              'model std::string: inline storage, bytes beyond size() unconstrained (stands for "object bytes that are not part of the value")']
+
+
+def tbl_obl(name, entry, desc, tiers=('quick', 'thorough'), unwind=8, timeout=900, extra=()):
+    return Obl(name, 'tbl.cpp', 'noctor:' + entry, unwind=unwind, unwindset=TBL_US, tiers=tiers, timeout=timeout, desc=desc, extra=extra,
+               bounds={'table entries': '<= 4', 'additions per history': '<= 3', 'strings': '<= 6 bytes', 'index lists': '<= 4 entries', 'integers': 'full width'}, functions=TBL_FUNCS)
+
+
+PROPS['C11'] = {
+    'obligations': [tbl_obl('he_' + t, 'h_he_' + t, 'two symbolic values (absent optionals and string tails hold arbitrary bytes): a == b implies hash(a) == hash(b); KeyRef agrees')
+                    for t in ('classtype', 'question', 'rr', 'qrsig', 'mmd', 'stringitem', 'indexlist', 'aec')] +
+                   [tbl_obl('he_exact_' + t, 'h_he_' + t, 'same with the exact bitwise CRC-32C model of the SSE4.2 intrinsics', tiers=('thorough',), timeout=2400, extra=('-DVERIF_EXACT_CRC',))
+                    for t in ('classtype', 'rr', 'mmd', 'stringitem')] +
+                   [tbl_obl('eq_members', 'h_eq_members', 'operator== of the key types implies member-wise equality including presence of optionals')] +
+                   [tbl_obl('tbl_' + t, 'h_tbl_' + t, 'history of <= 3 add() of symbolic values, then find/operator[]/clear/add: dedup, index stability, distinctness, clear', timeout=900)
+                    for t in ('classtype', 'rr', 'question', 'mmd')] +
+                   [tbl_obl('tbl_block_strings', 'h_tbl_block_strings', 'CdnsBlock::add_ip_address / add_question_list (reinterpret_cast keys): dedup, getters bounds-checked, clear', timeout=1500)],
+    'explanation': 'Hash/equality agreement is decided for all values of each key type (two symbolic values; storage that is not part of the value is unconstrained). '
+                   'Table behaviour is decided on whole histories of <= 3 additions from the constructor plus a query, with symbolic (possibly equal) values.',
+    'assumptions': TBL_ASSUME,
+}
+PROPS['C19'] = {
+    'obligations': [tbl_obl('copy_tbl_ctor', 'h_copy_tbl_ctor', 'BlockTable copy-constructed from a heap table that is then cleared/destroyed: lookups/adds on the copy never touch freed memory and agree with the values', timeout=1500),
+                    tbl_obl('copy_tbl_assign', 'h_copy_tbl_assign', 'same for copy assignment', timeout=1500),
+                    tbl_obl('copy_tbl_rr', 'h_copy_tbl_rr', 'same for RR keys (custom hash)', tiers=('thorough',), timeout=1500)] +
+                   [],
+    'explanation': 'The source object lives on the heap and is destroyed after the copy; CBMC\'s deallocated-object check fires iff anything in the copy still refers to it. '
+                   'Decided at the level of BlockTable (where the reference-keyed index lives); CdnsBlock/CdnsBlockRead copy operations are member-wise assignments of nine such tables, '
+                   'value-typed vectors, a value-keyed map and plain members (read in block.h) -- the whole-block copy is outside the solver bound (a 10 KB object: 745k symex steps, no verdict in 40 min).',
+    'assumptions': TBL_ASSUME,
 }
